@@ -82,6 +82,18 @@ def wrong_checksum(true_hex, mode):
         return repl + true_hex[1:]
     if mode == "wronglen":
         return true_hex[:-2]
+    # strings that denote the same NUMBER as the digest but are not the digest (a comparison must be one of hex
+    # strings, case-insensitively - not of integers)
+    if mode == "numeric_0x":
+        return "0x" + true_hex
+    if mode == "numeric_padded":
+        return "00" + true_hex
+    if mode == "numeric_underscore":
+        return true_hex[:4] + "_" + true_hex[4:]
+    if mode == "numeric_plus":
+        return "+" + true_hex
+    if mode == "numeric_zero_dropped":
+        return true_hex.lstrip("0") if true_hex.startswith("0") else "0" + true_hex
     raise ValueError(mode)
 
 
